@@ -60,12 +60,24 @@ func runOSProc(n int64, lang int64, seed int64) {
 	// made of that source's bytes and of nothing else
 	if slowMs := slowSourceMs(n, lang, seed); slowMs > 0 {
 		src.total, src.delay = 0, time.Duration(slowMs)*time.Millisecond
+		srcDelayMs = slowMs
 		recNewMnemonic(n, lang, nil)
-		src.delay = 0
+		src.delay, srcDelayMs = 0, 0
 	}
 	swapSource(osRandReader(), "os")
 	emit(Event{"op": "OSMark", "id": 3})
 	mark("BEGIN")
 	recNewMnemonic(n, lang, Event{"default_source": true})
 	mark("END")
+	// in some processes: an idle pause, then a run of calls on the default source (read-ahead, idle timers,
+	// start-up deadlines: the output is still fresh OS randomness, call after call)
+	if ms, _ := strconv.Atoi(os.Getenv("VERIF_IDLE_MS")); ms > 0 {
+		time.Sleep(time.Duration(ms) * time.Millisecond)
+		for k := 0; k < 8; k++ {
+			emit(Event{"op": "OSMark", "id": 4 + k})
+			mark("BEGIN")
+			recNewMnemonic([]int64{n, 24, 12, 15}[k%4], lang, Event{"default_source": true})
+			mark("END")
+		}
+	}
 }
